@@ -97,6 +97,8 @@ func TestProp_C20_model(t *testing.T) {
 			}
 			return genAddr().Draw(t, "addr")
 		}
+		var heldList bitcoin_reader.PeerList // the previous Get result, still held by the caller
+		var heldAddrs []string
 		t.Repeat(map[string]func(*rapid.T){
 			"add": func(t *rapid.T) {
 				a := genAddr().Draw(t, "addr")
@@ -166,6 +168,23 @@ func TestProp_C20_model(t *testing.T) {
 				sort.Strings(want)
 				if fmt.Sprint(got) != fmt.Sprint(want) {
 					t.Fatalf("Get(%d,%d) = %q, model %q", min, max, got, want)
+				}
+				// A result belongs to the caller: an earlier result must still list the same
+				// addresses after this (or any later) call - a caller that queries two score
+				// ranges holds two results at once.
+				if heldList != nil {
+					var now []string
+					for _, p := range heldList {
+						now = append(now, p.Address)
+					}
+					if fmt.Sprint(now) != fmt.Sprint(heldAddrs) {
+						t.Fatalf("the result of an earlier Get changed after a later Get(%d,%d): it listed %q, now lists %q", min, max, heldAddrs, now)
+					}
+				}
+				heldList = list
+				heldAddrs = nil
+				for _, p := range list {
+					heldAddrs = append(heldAddrs, p.Address)
 				}
 				k.Op("get unbounded=%v empty=%v", max == -1, len(want) == 0)
 			},
